@@ -113,12 +113,18 @@ type vSched struct {
 	stallName    string // "stall" strategy: this actor is held back at its occ-th arrival at schedule point stallPt
 	stallPt      int32  // for as long as anything else can move
 	stallOcc     int
-	stalled      int                                            // steps during which the stall was in force
-	arrivals     map[string]int                                 // (actor, pt) -> arrivals so far
-	gateLog      [][2]interface{}                               // (actor, pt#occ) of every step taken
-	wrapHook     func(pt int32, obj unsafe.Pointer, a, b int64) // optional: installed instead of s.hook (must call it)
-	projFn       func() []int32                                 // optional: projection of shared words, logged after every step
-	projLog      [][]int32
+	stalled      int // steps during which the stall was in force
+	// window exploration: the stall is lifted as soon as another actor arrives at its untilOcc-th arrival at untilPt
+	// (instead of lasting for as long as anything else can move)
+	untilName   string
+	untilPt     int32
+	untilOcc    int
+	stallLifted bool
+	arrivals    map[string]int                                 // (actor, pt) -> arrivals so far
+	gateLog     [][2]interface{}                               // (actor, pt#occ) of every step taken
+	wrapHook    func(pt int32, obj unsafe.Pointer, a, b int64) // optional: installed instead of s.hook (must call it)
+	projFn      func() []int32                                 // optional: projection of shared words, logged after every step
+	projLog     [][]int32
 	// set-up hold: until holdUntil() is true the scheduler drives the set-up deterministically (actors named in holdPrefer first,
 	// then actors still in front of their body); the plan / strategy starts afterwards. holdSteps = steps taken during the hold.
 	holdUntil  func() bool
@@ -200,6 +206,9 @@ func (s *vSched) park(a *vActor, g vGate) {
 	s.arrivals[key]++
 	a.occ = s.arrivals[key]
 	a.state = vStParked
+	if s.untilName != "" && a.name == s.untilName && g.pt == s.untilPt && a.occ == s.untilOcc {
+		s.stallLifted = true
+	}
 	s.mu.Unlock()
 	s.notify <- a
 	<-a.resume
@@ -484,7 +493,7 @@ func (s *vSched) Run() {
 			}
 			return
 		}
-		if s.stallName != "" && len(cs) > 1 {
+		if s.stallName != "" && !s.stallLifted && len(cs) > 1 {
 			// hold the chosen actor back at the chosen point while anything else can move
 			var rest []vChoice
 			for _, c := range cs {
